@@ -24,6 +24,8 @@ def run(res, tier, replay=None):
     c01i.run(prog, res, floor=18, prims=prims, advisory_filter=c01.scope_filter())
     c01i.run_views(prog, res, floor=5, prims=prims, advisory_filter=c01.scope_filter())
     c01i.run_extents(prog, res, floor=3, prims=prims, advisory_filter=c01.scope_filter())
+    c01i.run_alloc(prog, res, floor=2, prims=prims, advisory_filter=c01.scope_filter())
+    c01i.run_raise(prog, res, floor=3)
     c01i.witnesses(prog, res)
     if tier == "thorough":
         flt = c01.scope_filter()
@@ -38,6 +40,8 @@ def run(res, tier, replay=None):
             "C01.i": lambda p, r: c01i.run(p, r, floor=0, prims=c01.primitives(p), advisory_filter=flt),
             "C01.j": lambda p, r: c01i.run_views(p, r, floor=0, prims=c01.primitives(p), advisory_filter=flt),
             "C01.k": lambda p, r: c01i.run_extents(p, r, floor=0, prims=c01.primitives(p), advisory_filter=flt),
+            "C01.m": lambda p, r: c01i.run_alloc(p, r, floor=0, prims=c01.primitives(p), advisory_filter=flt),
+            "C01.n": lambda p, r: c01i.run_raise(p, r, floor=0),
         })
     if tier == "thorough":
         # after the mutation witnesses: findings of other configurations must not count as their baseline
@@ -62,5 +66,8 @@ def run(res, tier, replay=None):
         "sites. (j) string views: writers of (bytes, offset, length) keep offset + length inside the bytes object. "
         "(k) extents: a (pointer into an operand's data, count) pair given to memcpy/memset/fwrite/strncmp in a primitive or VM "
         "arm stays inside the object when offset or count is program-supplied (lengths of fresh objects taken from their allocation). "
+        "(m) an allocation size c0 + c1*count with a program-supplied count stays below 2^63 for the largest count the comparisons "
+        "in force admit. (n) a VM case that stores the result of a C function which can return an exception object tests it before "
+        "dispatching the next instruction (numeric entry points excluded: untested only after fixnum checks). "
         "Not decided: pointer-walking loops, memcpy lengths, tables hung off the context (type table, signal handlers), "
         "the reader's label table (value invariant), reader token buffers beyond C01.h, stack growth sufficiency, OOM paths.")
